@@ -518,6 +518,7 @@ class BaseSection(base.Sectionable):
         :param obj: Section or Property object.
         """
         if isinstance(obj, BaseSection):
+            self._check_no_cycle(obj)
             self._sections.append(obj)
             if obj._parent is not None and obj._parent is not self:
                 obj._parent.remove(obj)
@@ -575,6 +576,7 @@ class BaseSection(base.Sectionable):
                 raise ValueError("odml.Section.insert: "
                                  "Section with name '%s' already exists." % obj.name)
 
+            self._check_no_cycle(obj)
             if obj._parent is not None and obj._parent is not self:
                 obj._parent.remove(obj)
             self._sections.insert(position, obj)
